@@ -318,6 +318,19 @@ def run(ctx):
         for mu in mutants(sigh, rng, 6, 8, 0) + [sigh * 50, b'a;' * 2000, b'"' * 3000, b'*' * 4000, b'a;b=' + b'9' * 3000]:
             ops.append(f'c10.verify {" ".join(e[:6] + [hexs(mu)] + e[7:])} {hexs(chain)} {date + 5}')
 
+    # every status code net/http knows, honestly signed, with and without freshness information (table lookups keyed by the status)
+    STATUSES = [100, 101, 102, 103, 200, 201, 202, 203, 204, 205, 206, 207, 208, 226, 300, 301, 302, 303, 304, 305, 307, 308, 400, 401, 402, 403, 404, 405, 406, 407, 408, 409, 410, 411, 412, 413, 414,
+                415, 416, 417, 418, 421, 422, 423, 424, 425, 426, 428, 429, 431, 451, 500, 501, 502, 503, 504, 505, 506, 507, 508, 510, 511, 599, 600, 999, 0]
+    swe = []
+    for st in STATUSES:
+        for v in (('b3',) if st not in (200, 503, 511) else ('b1', 'b2', 'b3')):
+            e = ex(v, b'https://example.com/', b'GET', [], st, [(b'Content-Type', [b'text/html'])] + ([(b'Cache-Control', [b'max-age=60'])] if st % 7 == 0 else []), b'', b'status sweep')
+            swe.append(e)
+    res = ctx.go([f'sxg.sign {exs(e)} 16 {k0["cert"]} {k0["key"]} {hexs(b"https://example.com/cert.cbor")} {hexs(b"https://example.com/validity")} {date} {date + 3600}' for e in swe])
+    for r in res:
+        if r and r.startswith('ok '):
+            ops.append(f'c10.verify {r[3:]} {k0["chain"]} {date + 5}')
+
     # ---- bundles
     bs = [rand_bundle(rng, v, w) for v in ('b1', 'b2') for _ in range(5 * scale)]
     res = ctx.go([f'bundle.write {b}' for b in bs])
